@@ -34,7 +34,9 @@ def n_cases(tier):
 def gen(rng):
     sizes = [["tiny", "tiny", "k8"], ["tiny", "tiny", "k8"], ["tiny", "k8", "k64"], ["tiny", "k8", "k64"], ["k8", "k64"],
              ["k8", "k64", "k256"]][rng.randrange(6)]
-    wm = world.gen_world_model(rng, nfiles=rng.randrange(1, 5), sizes=sizes, p_have=0.3, max_stmts=4, min_missing=1)
+    wm = world.gen_world_model(rng, nfiles=rng.randrange(1, 5), sizes=sizes, p_have=0.3, max_stmts=4, min_missing=1,
+                               many_files=rng.choice([255, 256, 256, 257, 512]) if rng.random() < 0.04 else None,
+                               many_exact=rng.random() < 0.7)
     knobs = {"threads": rng.randrange(1, 5), "config_arg": rng.choice(["rel", "abs"])}
     knobs = scen.env_knobs(rng, knobs, unusable_tmp=True)
     base = {"seed": rng.getrandbits(48) | 1, "perm": True, "faults": []}
